@@ -184,6 +184,11 @@ Eval vm_compute in (length res, length (filter (fun r => negb (fst r)) res), len
     rn_["_changed_after_design"] = {"section": "geometric_constraints", "values": {"b": 5.0}, "design_found_first": True}
     lands.append(("NEARSQUARE", 39.0, 39.0))
     cfgs.append(rn_)
+    # the same manager (and process) first designed the same lot turned by 90 degrees
+    rot = cfg("RECTANGLE", months=12, loads={"kind": "balanced", "scale": 26000.0, "seed": 4}, geom_over={"length": 14.0, "width": 34.0, "b_min": 3.0, "b_max": 7.0})
+    rot["_first_configured_with"] = {"geometric_constraints": {"length": 34.0, "width": 14.0}}
+    lands.append(("RECTANGLE", 14.0, 34.0))
+    cfgs.append(rot)
     for (m, L, W), r in zip(lands, e2e_runs(cfgs)):
         if not r.get("ok"):
             chk.notes.append({"design_run": m, "exc": r.get("exc"), "msg": r.get("msg")})
